@@ -10,10 +10,10 @@ is mutated (re-parenting, renames, new nodes) and the same exporter object is
 iterated again.  Every exhausted cursor's lines are judged against the admitted
 sub-forest of the tree as it was during the session.
 """
-import codecs
 import gc
 import hashlib
 import io
+import os
 import re
 import warnings
 
@@ -105,7 +105,7 @@ def gen_cfg(rng, prop, tier):
         "indent": rng.choice((0, 4, 4, 2, 7)),
         "graph": rng.choice(("digraph", "digraph", "graph", "flowchart")),
         "gname": rng.choice(("tree", "tree", "TD", "LR", "g x")),
-        "namef": rng.random() < 0.3,
+        "namef": rng.choice((False, False, False, False, False, True, True, True, 2, 2)),
         "attrf": rng.random() < 0.35,
         "eattrf": rng.random() < 0.35,
         "etypef": rng.random() < 0.3,
@@ -138,7 +138,11 @@ class Funcs(object):
         self.sset = None if cfg["sset"] is None else frozenset(cfg["sset"])
         self.filter_ = None if self.fset is None else (lambda nd: ix(nd) not in self.fset)
         self.stop = None if self.sset is None else (lambda nd: ix(nd) in self.sset)
-        self.namef = (lambda nd: '%s#%d' % (nd.name, ix(nd))) if cfg["namef"] else None
+        if cfg["namef"] == 2:
+            self.namef = lambda nd: str(nd.name)  # the user's own identifiers need not be injective
+        else:
+            self.namef = (lambda nd: '%s#%d' % (nd.name, ix(nd))) if cfg["namef"] else None
+        self.namef_mode = cfg["namef"]
         if cfg["kind"] == "mermaid":
             self.attrf = (lambda nd: "" if ix(nd) % 4 == 3 else '("%d: %s")' % (ix(nd), nd.name)) if cfg["attrf"] else None
             self.eattrf = (lambda p, c: "--%d.%d-->" % (ix(p), ix(c))) if cfg["eattrf"] else None
@@ -150,6 +154,8 @@ class Funcs(object):
 
     # predictions (harness side)
     def name_of(self, i, names):
+        if self.namef_mode == 2:
+            return str(names[i])
         return "%s#%d" % (names[i], i)
 
     def nodeattr_of(self, i, names, kind):
@@ -529,21 +535,18 @@ def run(cfg, ops=None, rng=None):
                         judge.judge(step, lines, session_snap, session_names, res)
             elif kind == "tofile" and not cursors and cfg["kind"] == "mermaid":
                 snap = snap_of(world)
-                buf = io.StringIO()
+                # a real (scratch) file: whatever way the implementation opens it, the bytes on disk count
+                import tempfile
 
-                class _Mem(object):
-                    def __enter__(self_inner):
-                        return buf
-
-                    def __exit__(self_inner, *a):
-                        return False
-
-                real_open = codecs.open
-                codecs.open = lambda *a, **k: _Mem()
+                fd, path = tempfile.mkstemp(prefix="anytree-mermaid-", suffix=".md")
+                os.close(fd)
                 try:
-                    exporter.to_file("tree.md")
+                    exporter.to_file(path)
+                    with open(path, "rb") as fh:
+                        raw = fh.read()
                 finally:
-                    codecs.open = real_open
+                    os.remove(path)
+                buf = io.StringIO(raw.decode("utf-8"))
                 text = buf.getvalue()
                 lines = list(exporter)
                 judge.judge(step, lines, snap, list(names), res)
